@@ -43,7 +43,7 @@ def make_event(rnd, letter, port, seq):
     if letter == "oddfield":
         # a broadcast of a known family with a byte outside its table in one enumerated field (mode, fan level, direction, state): whether
         # it is a device (with a default) or an error inside the handler is the decoder's reading (model = Spec of C07's `delivered`)
-        off = {168: [137, 138, 140], 159: [137, 138], 165: [133]}[len(x)]
+        off = {168: [137, 138, 140], 159: [135, 136, 137, 138], 165: [133]}[len(x)]           # state / mode / fan-swing bytes; shutter position and direction bytes; state byte
         x[rnd.choice(off)] = rnd.choice([0, 6, 7, 0x40, 0x7f, 0x80, 0xff])
         m = lib.run_model([lib.req("bcast", bytes(x))])[0]
         return bytes(x), (m if "|" in m else None)
